@@ -31,6 +31,15 @@ use crate::storage::refs::RefsAt;
 use crate::storage::refs::SignedRefs;
 use crate::Timestamp;
 
+/// Re-exports of the private framing items, for verification harnesses.
+#[cfg(feature = "verif-hooks")]
+pub mod verif {
+    pub use super::frame::{
+        Control, Frame, FrameData, StreamId, StreamKind, Version, PROTOCOL_VERSION_STRING,
+    };
+    pub use super::varint::{payload, BoundsExceeded, VarInt};
+}
+
 /// The default type we use to represent sizes on the wire.
 ///
 /// Since wire messages are limited to 64KB by the transport layer,
